@@ -402,10 +402,17 @@ class RegexParser:
             }
             if escaped in escape_map:
                 return escape_map[escaped]
-            if escaped == "x":
-                return self._parse_hex_escape().char
-            if escaped == "u":
-                return self._parse_unicode_escape().char
+            # \xHH and \uHHHH; anything else after \x or \u is the letter itself
+            hex_digits = "0123456789abcdefABCDEF"
+            if escaped in "xu":
+                if escaped == "u" and self.unicode and self._peek() == "{":
+                    return self._parse_unicode_escape().char
+                width = 2 if escaped == "x" else 4
+                digits = self.pattern[self.pos : self.pos + width]
+                if len(digits) == width and all(d in hex_digits for d in digits):
+                    self.pos += width
+                    return chr(int(digits, 16))
+                return escaped
             if escaped == "c":
                 ctrl = self._peek()
                 if ctrl is not None and ("a" <= ctrl <= "z" or "A" <= ctrl <= "Z"):
